@@ -1201,6 +1201,75 @@ func ruleHandOver(c *Ctx, rule string) {
 			}
 		}
 	}
+	// when the subscription overlaps the scan, a round can be both in the scan's snapshot and in the callback's queue: the
+	// callback has to skip what the scan delivered, i.e. compare with a high-water mark the scan itself advances (a bound
+	// read before the scan started, such as the head at request time, is too low)
+	if a || b {
+		var scanFns, cbFns []*ssa.Function
+		scanFns = funcValuesOf(scan.(*ssa.Call).Common().Args[len(scan.(*ssa.Call).Common().Args)-1])
+		cbFns = funcValuesOf(sub.(*ssa.Call).Common().Args[1])
+		okMark := false
+		for _, cb := range cbFns {
+			if len(cb.Params) == 0 {
+				continue
+			}
+			bname := cb.Params[0].Name()
+			forEachInstr(cb, func(_ *ssa.BasicBlock, _ int, in ssa.Instruction) {
+				bo, isB := in.(*ssa.BinOp)
+				if !isB {
+					return
+				}
+				var other ssa.Value
+				if pathOf(bo.X) == bname+".Round" {
+					other = bo.Y
+				} else if pathOf(bo.Y) == bname+".Round" {
+					other = bo.X
+				} else {
+					return
+				}
+				// the mark: a captured variable (or a field of one) that the scan closure assigns
+				root := stripConv(other)
+				for d := 0; d < 4; d++ {
+					u, isU := root.(*ssa.UnOp)
+					if !isU {
+						break
+					}
+					if fa, isFA := u.X.(*ssa.FieldAddr); isFA {
+						root = fa.X
+						continue
+					}
+					if fv, isFV := u.X.(*ssa.FreeVar); isFV {
+						if cell := boundCell(fv); cell != nil {
+							for _, r := range *cell.Referrers() {
+								mc, isMC := r.(*ssa.MakeClosure)
+								if !isMC {
+									continue
+								}
+								for _, sf := range scanFns {
+									if mc.Fn != ssa.Value(sf) {
+										continue
+									}
+									for i, bnd := range mc.Bindings {
+										if bnd != ssa.Value(cell) || i >= len(sf.FreeVars) {
+											continue
+										}
+										for _, fr := range *sf.FreeVars[i].Referrers() {
+											if st, isSt := fr.(*ssa.Store); isSt && st.Addr == ssa.Value(sf.FreeVars[i]) {
+												okMark = true
+											}
+										}
+									}
+								}
+							}
+						}
+					}
+					break
+				}
+			})
+		}
+		c.Ok(rule, "a subscription that overlaps the scan skips the rounds the scan delivered", shortPos(c.P, sub), okMark,
+			"the live callback compares the incoming round with a mark that the cursor scan advances; a bound fixed before the scan lets a round stored in between be sent twice")
+	}
 	c.Ok(rule, "internal/chain/beacon.SyncChain scan-to-subscription hand-over", shortPos(c.P, sub), a || b || cLock,
 		"beacons stored between the end of the cursor scan and AddCallback are delivered to nobody: the callback is registered after the scan, the store is not re-read after registration and no lock spans both")
 }
